@@ -16,6 +16,7 @@
 -/
 import JsonC.Lemmas.FdIO
 import JsonC.Lemmas.TranslatedFd
+import JsonC.Lemmas.TranslatedFdRead
 
 namespace JsonC.FdIO
 open JsonC Generated FdSpec
